@@ -15,6 +15,7 @@ ALL_PROPS = ["C%02d" % i for i in range(1, 21)]
 # Verus units: name -> (python module, properties the unit's unlabelled obligations are charged to)
 VERUS_UNITS = {
     "backend": ("units_backend", ["C02", "C03", "C04", "C05", "C07", "C09", "C20", "C01"]),
+    "frontend": ("units_frontend", ["C01", "C02", "C03", "C06", "C07", "C10"]),
 }
 # which units to run for a property
 VERUS_FOR = {}
@@ -197,7 +198,7 @@ def run_kani(prop, tier, harnesses):
         for h in hs:
             hr = r.harness.get(h)
             info = harnesses[h]
-            if hr is None or hr["status"] == "UNKNOWN":
+            if hr is None or hr["status"] in ("UNKNOWN", "TIMEOUT"):
                 res["status"] = "undecided"
                 res["undecided"] = (res["undecided"] or "") + " harness %s produced no verdict (build error, timeout or tool failure; log %s)" % (h, log)
                 continue
